@@ -206,16 +206,36 @@ def run(ctx):
                 arg = prov.strip(P.call_args(o['bb'])[0])
                 good = False
                 why = prov.show(arg, maxdepth=4)
+                def _pos_clamp(v_):
+                    v_ = prov.strip(v_)
+                    if v_[0] == 'call' and v_[1].get('name') == 'clamp' and len(v_[2]) == 3:
+                        lo_, hi_ = prov.const_val(v_[2][1]), prov.const_val(v_[2][2])
+                        try:
+                            return (float(lo_) > 0.0 and float(hi_) >= float(lo_)), 'to_bits(clamp(_, %s, %s))' % (lo_, hi_)
+                        except (TypeError, ValueError):
+                            return False, 'clamp with non-constant bounds'
+                    return None, None
                 if arg[0] == 'call' and arg[1].get('name') == 'to_bits':
                     inner = prov.strip(arg[2][0])
-                    if inner[0] == 'call' and inner[1].get('name') == 'clamp' and len(inner[2]) == 3:
-                        lo = prov.const_val(inner[2][1])
-                        hi = prov.const_val(inner[2][2])
-                        try:
-                            good = float(lo) > 0.0 and float(hi) >= float(lo)
-                        except (TypeError, ValueError):
-                            good = False
-                        why = 'to_bits(clamp(_, %s, %s))' % (lo, hi)
+                    g_, w_ = _pos_clamp(inner)
+                    if g_ is not None:
+                        good, why = g_, w_
+                    elif inner[0] == 'param' and not fn.is_pub:
+                        # the conversion sits in a private helper: the clamp is owed by every caller
+                        sites = G.callers().get(fn.path, [])
+                        res = []
+                        for cfn, cbb, ct in sites:
+                            cargs = prov.prov_of(cfn).call_args(cbb)
+                            g2, w2 = _pos_clamp(cargs[inner[1] - 1]) if inner[1] <= len(cargs) else (False, '?')
+                            res.append((bool(g2), '%s passes %s' % (cfn.path.split('::')[-1], w2 or prov.show(prov.strip(cargs[inner[1] - 1]), maxdepth=3)[:80])))
+                        # handed on as a function value (`opt.map(helper)`): the argument is whatever the combinator supplies
+                        for ofn in G.fns:
+                            for obi, ot in ofn.calls():
+                                for oa in ot['args']:
+                                    if oa.get('k') == 'const' and (oa.get('fn') or {}).get('path') == fn.path:
+                                        res.append((False, '%s hands it to %s as a function value (argument not clamped)' % (ofn.path.split('::')[-1], ot['func'].get('name'))))
+                        good = bool(res) and all(r_[0] for r_ in res)
+                        why = 'helper parameter; callers: ' + '; '.join(r_[1] for r_ in res)
                 ctx.require(good, 'C11-R6', key_base + ':new_unchecked', 'NonZeroU64::new_unchecked(%s): lower clamp bound is a positive '
                             'constant, so the bit pattern cannot be 0 (clamp propagates NaN, whose bits are non-zero)' % why, where,
                             bad='NonZeroU64::new_unchecked(%s): the argument is not to_bits(clamp(_, lo, hi)) with constant lo > 0' % why)
